@@ -81,3 +81,41 @@ Lemma v2_before_v4 H epoch_of r4 r2 dl now v :
   (match v2_check mac auth r2 now with Some v => Some v | None => v4_check H auth epoch_of r4 dl now end) = Some v.
 Proof. intros ->. reflexivity. Qed.
 End P.
+
+(* ---------- what the string to sign pins down ---------- *)
+(* the four leading fields (method, Content-MD5, Content-Type, Date / Expires) are separated by line feeds, which none of them can
+   contain: two strings to sign are equal only if the four fields are equal and the remainders (x-amz lines and resource) are equal *)
+Lemma app_lf_unique : forall (x y r r' : bytes), ~ In 10 x -> ~ In 10 y -> x ++ 10 :: r = y ++ 10 :: r' -> x = y /\ r = r'.
+Proof.
+  induction x as [|a x IH]; intros [|c y] r r' Hx Hy E; cbn [app] in E.
+  - injection E as ->. split; reflexivity.
+  - injection E as <- _. exfalso. apply Hy. left. reflexivity.
+  - injection E as -> _. exfalso. apply Hx. left. reflexivity.
+  - injection E as -> E. destruct (IH y r r') as [-> ->]; [intros H; apply Hx; right; exact H|intros H; apply Hy; right; exact H|exact E|]. split; reflexivity.
+Qed.
+
+Definition v2_fields (mode : v2mode) (meth : bytes) (qs : option (list (bytes * bytes))) (hs : headers) : list bytes :=
+  [meth; opt_bytes (hs_get_unique hs (b "content-md5")); opt_bytes (hs_get_unique hs (b "content-type"));
+   match mode with
+   | HeaderAuth => match hs_get_unique hs (b "x-amz-date") with Some _ => [] | None => opt_bytes (hs_get_unique hs (b "date")) end
+   | PresignedUrl => match qs with Some l => opt_bytes (qs_get_unique l (b "Expires")) | None => [] end
+   end].
+Definition v2_rest (raw_path : bytes) (qs : option (list (bytes * bytes))) (hs : headers) (vh : option bytes) : bytes :=
+  amz_lines hs hs [] ++ (match vh with Some bk => [47] ++ bk | None => [] end) ++ raw_path
+  ++ (match qs with Some l => sub_resources l included_query true | None => [] end).
+
+Theorem v2_string_to_sign_pins mode m1 p1 q1 h1 v1 m2 p2 q2 h2 v2 :
+  Forall (fun f => ~ In 10 f) (v2_fields mode m1 q1 h1) -> Forall (fun f => ~ In 10 f) (v2_fields mode m2 q2 h2) ->
+  v2_string_to_sign mode m1 p1 q1 h1 v1 = v2_string_to_sign mode m2 p2 q2 h2 v2 ->
+  v2_fields mode m1 q1 h1 = v2_fields mode m2 q2 h2 /\ v2_rest p1 q1 h1 v1 = v2_rest p2 q2 h2 v2.
+Proof.
+  intros F1 F2 E. unfold v2_string_to_sign, nl in E. unfold v2_fields in *.
+  inversion F1 as [|? ? A1 F1']; subst. inversion F1' as [|? ? A2 F1'']; subst. inversion F1'' as [|? ? A3 F1''']; subst. inversion F1''' as [|? ? A4 _]; subst.
+  inversion F2 as [|? ? B1 F2']; subst. inversion F2' as [|? ? B2 F2'']; subst. inversion F2'' as [|? ? B3 F2''']; subst. inversion F2''' as [|? ? B4 _]; subst.
+  cbn [app] in E.
+  apply app_lf_unique in E as [-> E]; [|assumption|assumption].
+  apply app_lf_unique in E as [E2 E]; [|assumption|assumption].
+  apply app_lf_unique in E as [E3 E]; [|assumption|assumption].
+  apply app_lf_unique in E as [E4 E]; [|assumption|assumption].
+  rewrite E2, E3, E4. split; [reflexivity|]. unfold v2_rest. exact E.
+Qed.
